@@ -2,6 +2,8 @@ package route
 
 import (
 	"strings"
+
+	"github.com/gobwas/glob"
 )
 
 // matcher determines whether a host/path matches a route
@@ -22,7 +24,19 @@ func prefixMatcher(uri string, r *Route) bool {
 
 // globMatcher matches path to the routes' path using gobwas/glob.
 func globMatcher(uri string, r *Route) bool {
-	return r.Glob.Match(uri)
+	return globMatch(r.Glob, uri)
+}
+
+// globMatch matches s against a compiled glob pattern. gobwas/glob compiles
+// some malformed patterns like '/{' or 'a{}' without error and then panics
+// with an index out of range for some inputs. Such a pattern does not match.
+func globMatch(g glob.Glob, s string) (ok bool) {
+	defer func() {
+		if r := recover(); r != nil {
+			ok = false
+		}
+	}()
+	return g.Match(s)
 }
 
 // iPrefixMatcher matches path to the routes' path ignoring case
